@@ -23,11 +23,22 @@ class PynencError(Exception):
 
     def _to_json_dict(self) -> dict[str, Any]:
         """:return: a json serializable dictionary"""
+        if not self.__dict__ and self.args:
+            # errors without attributes of their own (e.g. RetryError("reason")) carry
+            # their information in args, which must survive the round trip
+            return {
+                "__args__": [
+                    a if isinstance(a, str | int | float | bool | None) else str(a)
+                    for a in self.args
+                ]
+            }
         return self.__dict__
 
     @classmethod
     def _from_json_dict(cls, json_dict: dict[str, Any]) -> "PynencError":
         """:return: a new error from the serialized json compatible dictionary"""
+        if set(json_dict) == {"__args__"}:
+            return cls(*json_dict["__args__"])
         return cls(**json_dict)
 
     def to_json(self) -> str:
